@@ -83,21 +83,29 @@ ValEq(a, b) ==
                              /\ \A i \in 1..Len(a.f) : HasKey(b, a.f[i].name) /\ ValEq(a.f[i].v, GetKey(b, a.f[i].name))
 
 (* ---- operators ---------------------------------------------------------------- *)
+\* TLC's integers are 32-bit and the engines' are 64-bit: the definition covers numbers of magnitude below 2^20
+\* (products below 2^40 would still be exact in the engines, but not here); anything larger is "not representable"
+\* and the program is dropped from the comparison
+Lim == 1048576
+Small(x) == x > -Lim /\ x < Lim
 Arith(op, a, b) ==      \* a, b numeric
     IF a.k = "int" /\ b.k = "int"
-      THEN CASE op = "+" -> Ok(VInt(a.v + b.v))
-             [] op = "-" -> Ok(VInt(a.v - b.v))
-             [] op = "*" -> Ok(VInt(a.v * b.v))
-             [] op = "/" -> IF b.v = 0 THEN Err("divzero") ELSE Ok(VInt(TruncDiv(a.v, b.v)))
-             [] op = "%" -> IF b.v = 0 THEN Err("divzero") ELSE Ok(VInt(TruncMod(a.v, b.v)))
+      THEN IF ~Small(a.v) \/ ~Small(b.v) THEN Err("UNREP")
+           ELSE CASE op = "+" -> Ok(VInt(a.v + b.v))
+                  [] op = "-" -> Ok(VInt(a.v - b.v))
+                  [] op = "*" -> IF Abs(a.v) > 1024 /\ Abs(b.v) > 1024 THEN Err("UNREP") ELSE Ok(VInt(a.v * b.v))
+                  [] op = "/" -> IF b.v = 0 THEN Err("divzero") ELSE Ok(VInt(TruncDiv(a.v, b.v)))
+                  [] op = "%" -> IF b.v = 0 THEN Err("divzero") ELSE Ok(VInt(TruncMod(a.v, b.v)))
       ELSE LET x == Q(a)
                y == Q(b) IN
-           CASE op = "+" -> Ok(VFloat(x + y))
-             [] op = "-" -> Ok(VFloat(x - y))
-             [] op = "*" -> IF TruncMod(x * y, 4) = 0 THEN Ok(VFloat(TruncDiv(x * y, 4))) ELSE Err("UNREP")
-             [] op = "/" -> IF y = 0 THEN Err("divzero")
-                            ELSE IF TruncMod(x * 4, y) = 0 THEN Ok(VFloat(TruncDiv(x * 4, y))) ELSE Err("UNREP")
-             [] op = "%" -> IF y = 0 THEN Err("divzero") ELSE Ok(VFloat(TruncMod(x, y)))
+           IF ~Small(x) \/ ~Small(y) THEN Err("UNREP")
+           ELSE CASE op = "+" -> Ok(VFloat(x + y))
+                  [] op = "-" -> Ok(VFloat(x - y))
+                  [] op = "*" -> IF Abs(x) > 1024 /\ Abs(y) > 1024 THEN Err("UNREP")
+                                 ELSE IF TruncMod(x * y, 4) = 0 THEN Ok(VFloat(TruncDiv(x * y, 4))) ELSE Err("UNREP")
+                  [] op = "/" -> IF y = 0 THEN Err("divzero")
+                                 ELSE IF TruncMod(x * 4, y) = 0 THEN Ok(VFloat(TruncDiv(x * 4, y))) ELSE Err("UNREP")
+                  [] op = "%" -> IF y = 0 THEN Err("divzero") ELSE Ok(VFloat(TruncMod(x, y)))
 
 Compare(op, a, b) ==    \* a, b numeric
     LET x == Q(a)
